@@ -108,6 +108,40 @@ def counts(rng, v, big_ok=False):
     return c
 
 
+USIZE_MAX = (1 << 64) - 1
+
+# "huge usize argument": every value class at which a usize -> u32 / u64 cast, a `n + (W-1)` style rounding or a
+# comparison done after a narrowing could go wrong.  Only for operations that are cheap there (the result is the
+# operand, 0 or -1): >>, >>=, bit, clear_bit, clear_high_bits, split_bits (never <<, set_bit, ones).
+HUGE_NAMED = [255, 256, 257, (1 << 16) - 1, 1 << 16, (1 << 16) + 1, (1 << 24) + 3,
+              1 << 31, (1 << 31) + 1, (1 << 32) - 1, 1 << 32, 1 << 33, (1 << 40) + 5, (3 << 32) + 64, (1 << 48) + 127,
+              (1 << 63) - 1, 1 << 63, (1 << 63) + 1, (1 << 63) + 64, USIZE_MAX - 63, USIZE_MAX - 64, USIZE_MAX]
+HUGE_ABOVE_U32 = [(1 << 32) + k for k in range(130)]
+HUGE_BELOW_MAX = [USIZE_MAX - k for k in range(130)]
+HUGE_OPS_U = ["u.shr", "u.bit", "u.clearbit", "u.clearhigh", "u.splitbits"]
+HUGE_OPS_I = ["i.shr", "i.bit"]
+
+
+def huge_counts(rng, tier):
+    if tier == "thorough":
+        return HUGE_NAMED + HUGE_ABOVE_U32 + HUGE_BELOW_MAX
+    return (HUGE_NAMED + rng.sample(HUGE_ABOVE_U32, 22) + [(1 << 32) + 127, (1 << 32) + 128]
+            + rng.sample(HUGE_BELOW_MAX, 22) + [USIZE_MAX - 62, USIZE_MAX - 1])
+
+
+def huge_operands(rng, tier):
+    """inline (1 and 2 words) and heap (3.. words) magnitudes, incl. low words zero / all ones / a single bit"""
+    ops = [1, 5, M, 1 << 63, (1 << 64), (1 << 127), (1 << 128) - 1, (1 << 100) + (1 << 70), mag(rng, 1, "random"),
+           mag(rng, 2, "random"), mag(rng, 2, "lowzero"),
+           1 << 128, (1 << 192) - 1, (1 << 191) + 1, mag(rng, 3, "random"), mag(rng, 3, "lowzero"), mag(rng, 4, "random"),
+           mag(rng, 5, "lowones"), mag(rng, 6, "sparse")]
+    if tier == "thorough":
+        ops += [nat(rng, tier) for _ in range(45)] + [0]
+    else:
+        ops = rng.sample(ops[:11], 5) + rng.sample(ops[11:], 5)
+    return ops
+
+
 PRIM_U = [("u8", 8), ("u16", 16), ("u32", 32), ("u64", 64), ("u128", 128), ("usize", 64)]
 PRIM_I = [("i8", 8), ("i16", 16), ("i32", 32), ("i64", 64), ("i128", 128), ("isize", 64)]
 
@@ -185,6 +219,29 @@ def generate(rng, tier):
         a = nat(rng, tier)
         yield Case("u.shl", [hx(a), dec(1000000)]); yield Case("i.shl", [hx(-a), dec(1000000 + rng.randrange(0, 64))])
         yield Case("u.setbit", [hx(a), dec(1000000 + rng.randrange(0, 64))])
+    # ---- tiny / exact-value operands: the arms that test for ONE value (`RefSmall(0)`, `RefSmall(1)` of trailing_ones_neg,
+    #      `dword == 1` -> shl_one_spilled, `checked_next_power_of_two` overflowing the double word, -1, -2^64, -2^128+1)
+    for a in [0, 1, 2, 3, M, B, B + 1, 1 << 127, (1 << 127) + 1, (1 << 128) - 1]:
+        for op in ("u.tz", "u.to", "u.countones", "u.countzeros", "u.bitlen", "u.ispow2", "u.nextpow2"):
+            yield Case(op, [hx(a)])
+        for op in ("i.tz", "i.to", "i.bitlen", "i.not"):
+            yield Case(op, [hx(a)])
+            if a:
+                yield Case(op, [hx(-a)])
+        for k in (0, 1, 63, 64, 65, 127, 128, 129, 191, 192, 200, 256):
+            for op in ("u.shl", "u.shr", "u.setbit", "u.clearbit", "u.bit", "u.splitbits", "u.clearhigh"):
+                yield Case(op, [hx(a), dec(k)])
+            for op in ("i.shl", "i.shr", "i.bit"):
+                yield Case(op, [hx(-a), dec(k)])
+    # ---- huge usize arguments (>= 2^31 .. usize::MAX) for every op that is cheap there, inline and heap, both signs
+    for a in huge_operands(rng, tier):
+        for k in huge_counts(rng, tier):
+            for op in HUGE_OPS_U:
+                yield Case(op, [hx(a), dec(k)])
+            yield Case("i.shr", [hx(-a), dec(k)])
+            yield Case("i.bit", [hx(-a), dec(k)])
+            if k & 1:
+                yield Case("i.shr", [hx(a), dec(k)]); yield Case("i.bit", [hx(a), dec(k)])
     # ---- scans, counts, powers of two
     for _ in range(500 if quick else 20000):
         a = nat(rng, tier)
@@ -226,9 +283,15 @@ RULE = ("operands: magnitudes of exactly 0..6,9 (thorough: ..100) words x patter
         "top word set, sparse, 1+2^k*odd, 2^(64n)-small} x every sign pair x {and,or,xor} x {UBig, IBig, UBig/IBig mixed "
         "both orders, primitive operands of all 12 types at 0/1/-1/min/max/random}; shift counts and bit positions "
         "{0,1,63,64,65,127,128,129,192, len*64-1, len*64, len*64+1, bit_len-1, bit_len, bit_len+1, tz-1, tz, tz+1, 3 random, 10^6} "
-        "for <<, >>, bit, set_bit, clear_bit, split_bits, clear_high_bits; trailing_zeros/ones, count_ones/zeros, bit_len, "
+        "for <<, >>, bit, set_bit, clear_bit, split_bits, clear_high_bits; huge usize arguments {2^8+-1, 2^16+-1, 2^24+3, 2^31, "
+        "2^31+1, 2^32-1, 2^32+k (k<130), 2^33, 2^40+5, 3*2^32+64, 2^48+127, 2^63-1, 2^63, 2^63+1, 2^63+64, usize::MAX-k (k<130)} "
+        "(quick: the named ones + 24 sampled of each k-range; thorough: all) for the ops that are cheap there (>> and >>= in all six "
+        "call forms on UBig and IBig of both signs, bit on UBig/IBig, clear_bit, clear_high_bits, split_bits) on inline 1-/2-word "
+        "and heap 3..6-word operands (single bit, all ones, low words zero, random); <<, set_bit, ones are never given such "
+        "arguments (they allocate n/64 words); trailing_zeros/ones, count_ones/zeros, bit_len, "
         "is_power_of_two, next_power_of_two on the same operands; ones(n) for n in {0..2,63..65,127..129,191..193,255..257,"
-        "1000,4096,10^6, random < 700}. Every case runs all ownership/assign call forms. Non-trivial := an operand of >= 3 "
+        "1000,4096,10^6, random < 700}; the exact-value operands {0,1,2,3,2^64-1,2^64,2^64+1,2^127,2^127+1,2^128-1} (and their "
+        "negatives) x every unary op and x counts {0,1,63..65,127..129,191,192,200,256} for every positional op. Every case runs all ownership/assign call forms. Non-trivial := an operand of >= 3 "
         "words, or a produced value of >= 3 words; distinct := distinct (op,args) lines.")
 
 REFINED = [
@@ -274,9 +337,13 @@ THEOREMS = ["Dashu.Props.C09." + n for n in [
     "trailing_count_unique", "trailing_ones", "trailing_ones_asis_outside_defect", "trailing_ones_asis_counterexample",
     "ones_exact", "ones_asis_counterexample", "clear_high_bits", "split_bits", "bit_len", "set_bit", "clear_bit", "count_ones",
     "count_zeros", "is_power_of_two", "next_power_of_two", "trailing_ones_negative", "driver_specs",
-    "primitive_forms", "primitive_types_ok", "spec_tz_total"]] + [
+    "primitive_forms", "primitive_types_ok", "spec_tz_total", "driver_specs_huge", "beyond_the_length"]] + [
     "Dashu.Props.GenBits." + n for n in ["gen_ibig_bitand", "gen_ibig_bitor", "gen_ibig_bitxor",
-                                         "gen_ibig_bitand_bits", "gen_ibig_bitor_bits", "gen_ibig_bitxor_bits"]]
+                                         "gen_ibig_bitand_bits", "gen_ibig_bitor_bits", "gen_ibig_bitxor_bits"]] + [
+    "Dashu.Props.GenMath." + n for n in ["gen_bit_len", "gen_ceil_log2", "ceilDiv_spec", "gen_ceil_div", "gen_ceil_div_usize",
+                                         "gen_round_up", "gen_round_up_usize", "gen_ones_word", "gen_ones_dword",
+                                         "gen_ones_word_out_of_domain", "gen_shl_dword", "gen_shr_word",
+                                         "shrBits_step_is_shr_word"]]
 
 # Tie A: the IBig bit-operator sign tables are regenerated from integer/src/bits.rs on every run
 # (lean/Dashu/Gen/Glue.lean) and proved equal to the same specification as the hand model's tables
@@ -286,6 +353,12 @@ GEN_AUDIT = ["Dashu.Audit.GenBits"]
 # Tie A, typed translator: the sign handling of `IBig >> usize` (rounding toward −∞) regenerated from shift_ops.rs = floor shift
 GEN_PROPS += ["Dashu.Props.GenIntOps"]
 GEN_AUDIT += ["Dashu.Audit.GenIntOps"]
+# Tie A, checked machine integers: the helpers of integer/src/math.rs (bit_len, ceil_log2, ceil_div(_usize), round_up(_usize),
+# ones_word, ones_dword, shl_dword, shr_word) regenerated statement by statement over overflow-checking operations; proved
+# total on their domain, equal to their specification and to the definitions the hand model uses (ceilDiv, onesN, bitLenNat,
+# mathShlDword, the word step of shrBits)
+GEN_PROPS += ["Dashu.Props.GenMath"]
+GEN_AUDIT += ["Dashu.Audit.GenMath"]
 
 LEVEL_TEXT = ("Machine-checked Lean 4 theorems, for every word size and operand length, that the sign-case tables of & | ^ ! "
               "(also as regenerated from integer/src/bits.rs on every run) "
